@@ -717,3 +717,19 @@ def c12p(ctx):
     -- every grid of a directory based cache has a directory of its own (also when the directory of the cache is configured)"""
     from ..engine import share
     share(ctx, 'C02', {'C02.j'})
+
+
+@rule('C12.q', floor=1)
+def c12q(ctx):
+    """a run cleans everything it was asked to clean: progress saved by an earlier, interrupted run is only taken up again when the
+    user says so (--continue).  mapproxy-seed builds its ProgressStore with `continue_seed=options.continue_seed`; the default of
+    the class is to load the old file, and with it an ordinary run given only --progress-file skips the levels and sub-trees the old
+    run had passed -- their expired tiles stay"""
+    fn = ctx.fn('mapproxy/seed/script.py:SeedScript.__call__')
+    ps = [x for x in fn.walk() if is_call(x, 'ProgressStore')]
+    if not ps:
+        raise Undecided('SeedScript.__call__: ProgressStore construction not found')
+    ok = all(keyword(x, 'continue_seed', 1) is not None and unparse(keyword(x, 'continue_seed', 1)).endswith('options.continue_seed') for x in ps)
+    ctx.check(ok, 'SeedScript.__call__:old-progress-only-with-continue', 'ProgressStore(.., continue_seed=options.continue_seed)', fn,
+              fail='mapproxy-seed loads the saved progress of an earlier run without being asked to continue: levels that run had passed are '
+                   'skipped')
